@@ -1,6 +1,7 @@
 package types
 
 import (
+	clienttypes "github.com/teleport-network/teleport/x/xibc/core/client/types"
 	"github.com/teleport-network/teleport/x/xibc/exported"
 
 	sdk "github.com/cosmos/cosmos-sdk/types"
@@ -13,8 +14,10 @@ func (h Header) ClientType() string {
 	return exported.TSS
 }
 
+// GetHeight returns the zero height: a TSS client has no consensus heights (see ClientState.GetLatestHeight).
+// It must not return nil, the client keeper calls methods on the returned height.
 func (h Header) GetHeight() exported.Height {
-	return nil
+	return clienttypes.Height{}
 }
 
 func (h Header) ValidateBasic() error {
